@@ -310,7 +310,9 @@ func c06Extra(c *Ctx) {
 			c06Marshal(c, c06Case{Kind: "duration", Chain: i}, root, false)
 		}
 		// the quoted string comes back as the same duration
-		if b, err := json.Marshal(d); err == nil {
+		var b []byte
+		var err error
+		if p, _ := guarded(func() { b, err = json.Marshal(d) }); p == "" && err == nil {
 			var back time.Duration
 			if p, _ := guarded(func() { err = json.Unmarshal(b, &back) }); p != "" || err != nil || back != d {
 				c.Diverge("C06", "json.Unmarshal(Marshal(duration))", d.String(), fmt.Sprintf("%v err=%v %s (text %s)", back, err, p, b), "", c06Case{Kind: "duration", Chain: i})
